@@ -283,7 +283,7 @@ fn v3eq(a: &Vector3, b: &Vector3) -> bool {
 fn shim2() -> DecShim {
     DecShim::new([0, 1], 2, Ref::none(), Ref::none())
 }
-const TI2: DecTypeInfo<2> = DecTypeInfo { referents: [0, 1], type_name: "" };
+const TI2: DecTypeInfo<2> = DecTypeInfo { type_id: 0, referents: [0, 1], type_name: "" };
 
 // =====================================================================================
 // U3.<T>       encode arm: bytes == layout from docs/binary.md; decode(encode(vs)) == vs   (C01, C03)
@@ -1688,7 +1688,7 @@ fn u3_ref() {
     assert!(s.eq(bytes));
     // instances with file referents fa, fb exist and map to builders ra, rb
     let mut shim = DecShim::new([fa, fb], 2, ra, rb);
-    let ti = DecTypeInfo::<2> { referents: [fa, fb], type_name: "" };
+    let ti = DecTypeInfo::<2> { type_id: 0, referents: [fa, fb], type_name: "" };
     assert!(dec_Ref_Ref(bytes, &ti, &mut shim).is_ok());
     // inside the written set -> the corresponding new instance; outside / null -> null
     assert!(out!(shim, 0, Variant::Ref(x) => *x == rb) && out!(shim, 1, Variant::Ref(x) => x.is_none()));
@@ -1717,7 +1717,7 @@ fn u3_ref_wire() {
     let n: usize = kani::any();
     kani::assume(n <= 8);
     let mut shim = DecShim::new([fa, fb], 2, ra, rb);
-    let ti = DecTypeInfo::<2> { referents: [fa, fb], type_name: "" };
+    let ti = DecTypeInfo::<2> { type_id: 0, referents: [fa, fb], type_name: "" };
     let r = dec_Ref_Ref(&w[..n], &ti, &mut shim);
     assert!(r.is_ok() == (n == 8));
     if n == 8 {
@@ -1956,6 +1956,124 @@ fn u3_font() {
         std::mem::forget(v0);
         std::mem::forget(v1);
     }
+}
+
+// ---------------------------------------------------------------- file header / END chunk (writer)
+//@ obligation: U5.hdr.write
+//@ props: C03
+//@ fns: SerializerState::write_header
+//@ kind: complete
+//@ covers: 1
+//@ checks: functional
+//@ note: verbatim body of write_header over a state double holding the two counts: magic "<roblox!", signature 89 ff 0d 0a 1a 0a, version 0, class count and instance count as u32 LE, 8 zero bytes (docs/binary.md File Header); and FileHeader::decode reads the same counts back
+#[kani::proof]
+#[kani::unwind(16)]
+fn u5_hdr_write() {
+    let nt: u32 = kani::any();
+    let ni: u32 = kani::any();
+    let mut st = EncState { output: Vec::with_capacity(64), type_infos: EncTypeInfos { values: EncLen { n: nt as usize } }, relevant_instances: EncLen { n: ni as usize } };
+    assert!(es_write_header(&mut st).is_ok());
+    let mut s = Spec::new();
+    for b in [0x3cu8, 0x72, 0x6f, 0x62, 0x6c, 0x6f, 0x78, 0x21, 0x89, 0xff, 0x0d, 0x0a, 0x1a, 0x0a] {
+        s.u8(b);
+    }
+    s.le_u16(0);
+    s.le_u32(nt);
+    s.le_u32(ni);
+    s.le_u64(0);
+    assert!(s.eq(&st.output));
+    let h = crate::deserializer::FileHeader::decode(&st.output[..]);
+    assert!(match &h { Ok(h) => h.num_types == nt && h.num_instances == ni, Err(_) => false });
+    kani::cover!(true, "end of harness reached");
+    std::mem::forget(h);
+    std::mem::forget(st);
+}
+
+//@ obligation: U5.end
+//@ props: C03 C04
+//@ fns: SerializerState::serialize_end
+//@ kind: complete
+//@ covers: 1
+//@ checks: functional
+//@ note: verbatim body of serialize_end: the file ends with the chunk END\0, not compressed (compressed length 0), length 9, reserved 0, payload "</roblox>"; and Chunk::decode reads it back
+#[kani::proof]
+#[kani::unwind(12)]
+#[kani::stub(alloc::fmt::format, crate::chunk::__verif::fmt_stub)]
+fn u5_end() {
+    let mut st = EncState { output: Vec::with_capacity(64), type_infos: EncTypeInfos { values: EncLen { n: 0 } }, relevant_instances: EncLen { n: 0 } };
+    assert!(es_serialize_end(&mut st).is_ok());
+    let mut s = Spec::new();
+    for b in [b'E', b'N', b'D', 0u8] {
+        s.u8(b);
+    }
+    s.le_u32(0);
+    s.le_u32(9);
+    s.le_u32(0);
+    for b in [b'<', b'/', b'r', b'o', b'b', b'l', b'o', b'x', b'>'] {
+        s.u8(b);
+    }
+    assert!(s.eq(&st.output));
+    kani::cover!(true, "end of harness reached");
+    std::mem::forget(st);
+}
+
+// ---------------------------------------------------------------- head of decode_prop_chunk (C04)
+fn dp_state() -> DpState {
+    DpState {
+        type_infos: DpTypeInfos { id: 7, info: DecTypeInfo::<2> { type_id: 0, referents: [0, 1], type_name: "" } },
+        instances_by_ref: DpMap {
+            keys: [0, 1],
+            inst: [DpInstance { builder: DpBuilder { referent: Ref::none(), named: 0 } }, DpInstance { builder: DpBuilder { referent: Ref::none(), named: 0 } }],
+        },
+        unknown_type_ids: DpSet { seen: 0 },
+    }
+}
+
+fn prop_head_case(n: usize, cid: u32) {
+    // n (how much of the chunk is present) and cid (class id) concrete at every call site
+    let name: u8 = kani::any();
+    kani::assume(name < 0x80);
+    let tb: u8 = kani::any();
+    // class id, name (1 character), type byte
+    let w: [u8; 10] = [cid as u8, (cid >> 8) as u8, (cid >> 16) as u8, (cid >> 24) as u8, 1, 0, 0, 0, name, tb];
+    let mut st = dp_state();
+    let mut reached: Option<crate::types::Type> = None;
+    let r = dp_head(&w[..n], &mut st, &mut reached);
+    let untouched = st.instances_by_ref.inst[0].builder.named == 0 && st.instances_by_ref.inst[1].builder.named == 0;
+    if n < 9 || cid != 7 {
+        assert!(r.is_err() && reached.is_none() && untouched);
+    } else if n == 9 {
+        // ends after the name: silently skipped
+        assert!(r.is_ok() && reached.is_none() && untouched);
+    } else {
+        let listed = matches!(tb, 0x01..=0x0e | 0x10 | 0x12..=0x1c | 0x1e | 0x1f | 0x20 | 0x21 | 0x22);
+        assert!(r.is_ok() && untouched);
+        assert!(reached.is_some() == listed);
+        if let Some(t) = reached {
+            assert!(t as u8 == tb);
+        }
+    }
+    std::mem::forget(st);
+}
+
+//@ obligation: U4.prop.head
+//@ props: C04 C13
+//@ fns: decode_prop_chunk[head]
+//@ kind: bounded
+//@ bound: property name of 1 ASCII character (symbolic, so never "Name"); type byte symbolic (all 256); chunk complete, cut after the name, cut inside the name; declared and undeclared class id
+//@ checks: functional
+//@ covers: 1
+//@ timeout: 1500
+//@ note: verbatim head of decode_prop_chunk over state doubles: a chunk that ends right after the property name is skipped (Ok, no instance touched); a type byte that docs/binary.md does not list is skipped likewise; a listed byte selects exactly that wire type; an undeclared class id is an error; a chunk cut inside the name is an error, never a panic
+#[kani::proof]
+#[kani::unwind(5)]
+#[kani::stub(alloc::fmt::format, crate::chunk::__verif::fmt_stub)]
+fn u4_prop_head() {
+    prop_head_case(10, 7);
+    prop_head_case(9, 7);
+    prop_head_case(10, 8);
+    prop_head_case(6, 7);
+    kani::cover!(true, "end of harness reached");
 }
 
 // ---------------------------------------------------------------- add_property (C15)
